@@ -279,7 +279,7 @@ def evaluate_runner(fr, spec, itypes=("cell",), n_inputs=2, prop="C01", all_enti
                     kind = "guard"
                     what = f"kernel ({itype},{sid}) entity {ent}: " + "; ".join(problems)
                 else:
-                    ok, worst, idx = compare(np.asarray(A) - A0, Aref, E + fr.tol.u * np.abs(A0))
+                    ok, worst, idx = compare(np.asarray(A) - A0, Aref, E + fr.tol.u * (np.abs(A0) + np.abs(Aref)))
                     if not ok:
                         d = np.asarray(A) - A0
                         what = (f"kernel ({itype},{sid}) entity {ent} input#{k}: A{list(idx)} = {d[idx] if idx else d!r} but reference "
